@@ -9,7 +9,8 @@ import Mathlib.Algebra.Order.Field.Power
     `ilog2_spec`, `fl_err` / `fl_rel_err` (half-ulp / 2⁻⁵³ relative error), `fl_exact` (doubles are fixed points),
     `fl_neg`, `fl_mono` (round-to-nearest is monotone). Exponent range is unbounded (no overflow / subnormals). -/
 
-namespace Dbl
+namespace StatsDbl
+open Dbl
 
 theorem pow2_eq_zpow (e : Int) : pow2 e = (2 : Rat) ^ e := by
   unfold pow2
@@ -335,4 +336,4 @@ theorem fl_mono {q q' : Rat} (h : q ≤ q') : fl q ≤ fl q' := by
   · subst hq; rw [fl_zero]; exact fl_nonneg h
   · exact fl_mono_pos hq h
 
-end Dbl
+end StatsDbl
